@@ -463,6 +463,17 @@ impl C08 {
                     "expected": "len() and size_hint() equal the number of slices still to come after every step"}));
             }
         }
+        // label values of a zero-sized type: only the lengths of the slices can be observed, and they must be right
+        {
+            let units: Vec<Vec<()>> = a.iter().map(|l| vec![(); l.len()]).collect();
+            let su = segs_from_lists(&units);
+            let su2 = su.clone();
+            let r = guard(|| (su.into_iter().map(|f| f.0 .0.len()).collect::<Vec<usize>>(), su2.iter().map(|s| s.len()).collect::<Vec<usize>>()));
+            if let Some((owned, borrowed)) = must_return(ctx, "into_iter<SF<()>>", "any", r, input) {
+                let want: Vec<usize> = a.iter().map(|l| l.len()).collect();
+                ctx.check(owned == want && borrowed == want, "into_iter<SF<()>>/each-slice-once-in-order/value/any", || json!({"input": input(), "observed_lengths": [owned.clone(), borrowed.clone()], "expected_lengths": want}));
+            }
+        }
         // borrowed slice iterator
         {
             let ssa = segs_from_lists(&strs(a));
